@@ -1,6 +1,6 @@
 (* Dispatcher of the extracted model: one S-expression in, one out. *)
 From Coq Require Import String.
-From HS Require Import Base.Prelude Model.Version.
+From HS Require Import Base.Prelude Model.Version Model.SortableDict.
 
 Definition run_command (c : sexp) : sexp :=
   match c with
@@ -13,6 +13,7 @@ Definition run_command (c : sexp) : sexp :=
         match args with [SStr a; SStr b] => cmd_ver_cmp a b | _ => bad_request end
       else if str_eqb name (s_ "ver-matrix") then
         cmd_ver_matrix (flat_map (fun a => match a with SStr t => [t] | _ => [] end) args)
+      else if str_eqb name (s_ "sd-run") then cmd_sd_run args
       else bad_request
   | _ => bad_request
   end.
